@@ -21,7 +21,7 @@ MANIFEST = dict(
     category="proof",
     text="Coq theorems on the protocol model M-Sys (coq/theories/sys/Proto.v: Executor scheduling state, Worker, Environment and transports as the code is; process behaviour and HashMap iteration orders are universally quantified inputs), for every schedule and every oracle: message_conservation (every stamped message sent is, with multiplicity, in exactly one of event queue / command queue / arrival log), stamps_unique, per_link_fifo / per_sender_fifo (the send sequence of a worker to a target IS, as a list, arrival log ++ command queue ++ event queue: exactly-once and in order on every link), no_message_dropped (a DeliverMessage is never handled for a process that does not exist: a routed process is on its worker or its spawn command is queued ahead of every message for it), and per handler: a process leaves `spawning` only through its NotifySpawn (the F71 schedule is a kernel-computed regression witness since its repair), every SpawnAction is answered by exactly one NotifySpawn with a fresh pid, every wake-up source (message, awaited result, elapsed timeout) re-queues a parked select. Global invariants over every schedule and oracle (phase 3): scheduler_well_formed (run queue duplicate-free; queue / `spawning` / `selecting` pairwise disjoint and naming existing unfinished processes; every process lives on the worker the router names), spawner_gets_pid (for every process c: #workers with c in `spawning` = #SpawnAction(c) queued + #NotifySpawn(c) queued <= 1, the NotifySpawn queued at the spawner's worker), arrival_log_is_mailbox_history (the DeliverMessages handled for target t on a worker ARE, as a list, everything ever appended to t's mailbox, so the FIFO theorems speak about mailboxes), and three of the four clauses of the no_lost_wakeup invariant Inv_parked: awaited_completion_never_unseen, no_timeout_due_at_last_check (premise time_honest: the slice does not park with a timeout already due), parked_has_no_unseen_message (premise honest_run: the slice parks only after scanning its mailbox; both premises are properties of the select machine, C05). The fourth clause of Inv_parked is DECIDED: REFUTED for arbitrary oracles by two kernel-computed witnesses (a slice that issues Await while keeping a stale key of its previous select lets the new AwaitAction overwrite the pending_awaits entry that stores the answer; a slice run for a process that a failure notification has completed in place) — neither is a slice of the real VM (complete_select forgets the sources of a completed select; a failed process has no frames), and PROVED for every schedule and every oracle that is await_honest (these two select-machine properties, decidable on the schedule): await_backed (every None entry of an unfailed process is backed by a registration in awaiters_for_target on the target's own worker or by a queued AwaitAction / QueryAndAwait / ProcessResults carrying the result / stored pending_awaits answer / UpdateAwaitResults carrying the result), parked_await_answer_in_flight (p parked, p awaits t, t has a result -> the answer is in flight or p was completed by a failure), quiescent_no_unseen_result and quiescent_no_ready (all command and event queues empty -> no parked process has an unseen ready source; pending_awaits entries are live). F72 is not a counterexample (the overtaken awaiter is runnable). The global statements are additionally checked on the real code by the implementation-level oracles (message log exactly-once/FIFO, quiescence + spurious-wake-up probe) over seeded adversarial schedules. The model is tied to the code by replaying qv_sim traces of the real Environment/Workers through the extracted model with the state compared after every scheduler action. During the replay the extracted boolean forms of the oracle premises of the global theorems (pid_honest, await_honest, park_honest, time_honest, resume_honest; sys/ProtoPremises.v) are evaluated on every action of every real trace; a violated premise is a correspondence-broken violation (evidence key premise_checks; a synthetic Send to an unallocated pid is the negative control).",
     design_ref="§4, §5 C04",
-    note="Trusted: Coq kernel, extraction (ExtrOcamlBasic), OCaml driver, the simulator's transports and oracles (harness/src/bin/qv_sim), the trace-to-oracle conversion (vplib/simlib.py), the schedule abstraction of DESIGN §4. Effects are outside M-Sys (traces with effects are not replayed). Known finding F70. The premises park_honest / time_honest / await_honest are properties of the VM's select machine (C05's model), not proved of executor.rs here.",
+    note="Trusted: Coq kernel, extraction (ExtrOcamlBasic), OCaml driver, the simulator's transports and oracles (harness/src/bin/qv_sim), the trace-to-oracle conversion (vplib/simlib.py), the schedule abstraction of DESIGN §4. Effects are outside M-Sys (traces with effects are not replayed). F70 was repaired by 5eb967d (its corpus line must pass). The premises park_honest / time_honest / await_honest are properties of the VM's select machine (C05's model), not proved of executor.rs here.",
     technique="Coq proof over all schedules of a protocol model (invariants by induction on the schedule) + model/code correspondence by trace replay + schedule exploration of the real runtime with implementation-level oracles",
 )
 
